@@ -1,5 +1,5 @@
 (** C18 — sorting and container libraries conform to their abstract data types: property theorems only. *)
-From ChibiV Require Import C18.Spec C18.Model C18.Proofs C18.Proofs2 C18.Oracle C18.OracleProofs C18.SpecCont C18.ContProofs C18.ISet C18.ISetProofs C18.ISetTie Gen.C18_ISetGuards.
+From ChibiV Require Import C18.RaList C18.RaListProofs C18.Deque C18.DequeProofs C18.Spec C18.Model C18.Proofs C18.Proofs2 C18.Oracle C18.OracleProofs C18.SpecCont C18.ContProofs C18.ISet C18.ISetProofs C18.ISetTie Gen.C18_ISetGuards C18.SeqTie Gen.C18_SeqLeaves.
 
 (** the merge step of both C merge sorts is a stable merge (ties: left run first) *)
 Theorem merge_stable : forall (A : Type) (lt : A -> A -> bool), strict_weak_order lt ->
@@ -195,3 +195,302 @@ Theorem iset_adjoin_node_inner_call_is_top : forall a b, a <> Nil -> (t_start b 
   is_empty a = true \/ (t_start a <= t_start b /\ t_end b <= t_end a)%Z -> adjoin_node a b = adjoin_node_top a b.
 Proof. exact adjoin_node_top_eq. Qed.
 Print Assumptions iset_adjoin_node_inner_call_is_top.
+
+(** ---- SRFI 134 immutable deques inside the model (coq/C18/Deque.v mirrors lib/srfi/134.scm; proofs in DequeProofs.v) *)
+Local Open Scope nat_scope.
+(** 134.scm check: from consistent cached lengths it returns a balanced record (lenf <= 3 lenr + 1, lenr <= 3 lenf + 1) denoting the same list *)
+Theorem ideque_check_balances :
+  forall A lf (f : list A) lr r, lf = length f -> lr = length r ->
+  dq_wf (dq_check lf f lr r) /\ dq_to_list (dq_check lf f lr r) = f ++ rev r.
+Proof. exact dq_check_balances. Qed.
+Print Assumptions ideque_check_balances.
+
+(** every SRFI 134 procedure that builds a deque keeps the balance invariant and denotes the list operation it stands for *)
+Theorem ideque_constructors_keep_balance_and_refine_lists :
+  (forall A, dq_wf (@dq_empty A) /\ dq_to_list (@dq_empty A) = []) /\
+  (forall A (l : list A), dq_wf (dq_of_list l) /\ dq_to_list (dq_of_list l) = l) /\
+  (forall A size (init : nat -> A),
+     dq_wf (dq_tabulate size init) /\ dq_to_list (dq_tabulate size init) = map init (seq 0 size)) /\
+  (forall A (d : dq A) x, dq_wf d ->
+     dq_wf (dq_add_front d x) /\ dq_to_list (dq_add_front d x) = x :: dq_to_list d) /\
+  (forall A (d : dq A) x, dq_wf d ->
+     dq_wf (dq_add_back d x) /\ dq_to_list (dq_add_back d x) = dq_to_list d ++ [x]) /\
+  (forall A (d : dq A), dq_wf d ->
+     (forall d', dq_remove_front d = Some d' -> dq_wf d' /\ dq_to_list d' = tl (dq_to_list d)) /\
+     (dq_remove_front d = None <-> dq_to_list d = [])) /\
+  (forall A (d : dq A), dq_wf d ->
+     (forall d', dq_remove_back d = Some d' -> dq_wf d' /\ dq_to_list d' = removelast (dq_to_list d)) /\
+     (dq_remove_back d = None <-> dq_to_list d = [])) /\
+  (forall A (d : dq A), dq_wf d ->
+     dq_wf (dq_reverse d) /\ dq_to_list (dq_reverse d) = rev (dq_to_list d)) /\
+  (forall A (d : dq A) n, dq_wf d -> n <= dq_length d ->
+     dq_wf (dq_take_ d n) /\ dq_to_list (dq_take_ d n) = firstn n (dq_to_list d)) /\
+  (forall A (d : dq A) n, dq_wf d -> n <= dq_length d ->
+     dq_wf (dq_drop_ d n) /\ dq_to_list (dq_drop_ d n) = skipn n (dq_to_list d)) /\
+  (forall A (d : dq A) n, dq_wf d ->
+     match dq_take d n with
+     | Some d' => n <= length (dq_to_list d) /\ dq_wf d' /\ dq_to_list d' = firstn n (dq_to_list d)
+     | None => length (dq_to_list d) < n
+     end) /\
+  (forall A (d : dq A) n, dq_wf d ->
+     match dq_drop d n with
+     | Some d' => n <= length (dq_to_list d) /\ dq_wf d' /\ dq_to_list d' = skipn n (dq_to_list d)
+     | None => length (dq_to_list d) < n
+     end) /\
+  (forall A (d : dq A) n, dq_wf d ->
+     match dq_take_right d n with
+     | Some d' => n <= length (dq_to_list d) /\ dq_wf d' /\
+                  dq_to_list d' = skipn (length (dq_to_list d) - n) (dq_to_list d)
+     | None => length (dq_to_list d) < n
+     end) /\
+  (forall A (d : dq A) n, dq_wf d ->
+     match dq_drop_right d n with
+     | Some d' => n <= length (dq_to_list d) /\ dq_wf d' /\
+                  dq_to_list d' = firstn (length (dq_to_list d) - n) (dq_to_list d)
+     | None => length (dq_to_list d) < n
+     end) /\
+  (forall A (d : dq A) n, dq_wf d ->
+     match dq_split_at d n with
+     | Some (d1, d2) => n <= length (dq_to_list d) /\ dq_wf d1 /\ dq_wf d2 /\
+                        dq_to_list d1 = firstn n (dq_to_list d) /\ dq_to_list d2 = skipn n (dq_to_list d)
+     | None => length (dq_to_list d) < n
+     end) /\
+  (forall A (ds : list (dq A)),
+     dq_wf (dq_append_all ds) /\ dq_to_list (dq_append_all ds) = concat (map (@dq_to_list A) ds)) /\
+  (forall A (d1 d2 : dq A),
+     dq_wf (dq_append d1 d2) /\ dq_to_list (dq_append d1 d2) = dq_to_list d1 ++ dq_to_list d2) /\
+  (forall A B (g : A -> B) (d : dq A), dq_wf d ->
+     dq_wf (dq_map g d) /\ dq_to_list (dq_map g d) = map g (dq_to_list d)) /\
+  (forall A B (g : A -> option B) (d : dq A),
+     dq_wf (dq_filter_map g d) /\ dq_to_list (dq_filter_map g d) = filter_map_list g (dq_to_list d)) /\
+  (forall A B (g : A -> list B) (d : dq A),
+     dq_wf (dq_append_map g d) /\ dq_to_list (dq_append_map g d) = flat_map g (dq_to_list d)) /\
+  (forall A (p : A -> bool) (d : dq A),
+     dq_wf (dq_filter p d) /\ dq_to_list (dq_filter p d) = filter p (dq_to_list d)) /\
+  (forall A (p : A -> bool) (d : dq A),
+     dq_wf (dq_remove p d) /\ dq_to_list (dq_remove p d) = remove_list p (dq_to_list d)) /\
+  (forall A (p : A -> bool) (d : dq A),
+     dq_wf (fst (dq_partition p d)) /\ dq_wf (snd (dq_partition p d)) /\
+     dq_to_list (fst (dq_partition p d)) = fst (partition p (dq_to_list d)) /\
+     dq_to_list (snd (dq_partition p d)) = snd (partition p (dq_to_list d)) /\
+     dq_to_list (fst (dq_partition p d)) = filter p (dq_to_list d) /\
+     dq_to_list (snd (dq_partition p d)) = filter (fun x => negb (p x)) (dq_to_list d)) /\
+  (forall A (p : A -> bool) (d : dq A), dq_wf d ->
+     dq_wf (dq_take_while p d) /\ dq_to_list (dq_take_while p d) = fst (span_list p (dq_to_list d))) /\
+  (forall A (p : A -> bool) (d : dq A), dq_wf d ->
+     dq_wf (dq_drop_while p d) /\ dq_to_list (dq_drop_while p d) = snd (span_list p (dq_to_list d))) /\
+  (forall A (p : A -> bool) (d : dq A), dq_wf d ->
+     dq_wf (dq_take_while_right p d) /\
+     dq_to_list (dq_take_while_right p d) = rev (fst (span_list p (rev (dq_to_list d))))) /\
+  (forall A (p : A -> bool) (d : dq A), dq_wf d ->
+     dq_wf (dq_drop_while_right p d) /\
+     dq_to_list (dq_drop_while_right p d) = rev (snd (span_list p (rev (dq_to_list d))))) /\
+  (forall A (p : A -> bool) (d : dq A), dq_wf d ->
+     dq_wf (fst (dq_span p d)) /\ dq_wf (snd (dq_span p d)) /\
+     dq_to_list (fst (dq_span p d)) = fst (span_list p (dq_to_list d)) /\
+     dq_to_list (snd (dq_span p d)) = snd (span_list p (dq_to_list d))) /\
+  (forall A (p : A -> bool) (d : dq A), dq_wf d ->
+     dq_wf (fst (dq_break p d)) /\ dq_wf (snd (dq_break p d)) /\
+     dq_to_list (fst (dq_break p d)) = fst (break_list p (dq_to_list d)) /\
+     dq_to_list (snd (dq_break p d)) = snd (break_list p (dq_to_list d))) /\
+  (forall A B (d1 : dq A) (d2 : dq B),
+     dq_wf (dq_zip2 d1 d2) /\ dq_to_list (dq_zip2 d1 d2) = combine (dq_to_list d1) (dq_to_list d2)).
+Proof. exact dq_constructors_keep_invariant_and_refine_lists. Qed.
+Print Assumptions ideque_constructors_keep_balance_and_refine_lists.
+
+(** every observer answers what the denoted list answers; front/back/ref/length/empty?/generator need the balance invariant *)
+Theorem ideque_observers_refine_lists :
+  (forall A (d : dq A), dq_wf d -> dq_front d = hd_error (dq_to_list d)) /\
+  (forall A (d : dq A), dq_wf d -> dq_back d = hd_error (rev (dq_to_list d))) /\
+  (forall A (d : dq A) n, dq_wf d -> dq_ref d n = nth_error (dq_to_list d) n) /\
+  (forall A (d : dq A), dq_wf d -> dq_length d = length (dq_to_list d)) /\
+  (forall A (d : dq A), dq_wf d -> (dq_is_empty d = true <-> dq_to_list d = [])) /\
+  (forall A S (proc : A -> S -> S) (knil : S) (d : dq A),
+     dq_fold proc knil d = fold_left (fun acc x => proc x acc) (dq_to_list d) knil) /\
+  (forall A S (proc : A -> S -> S) (knil : S) (d : dq A),
+     dq_fold_right proc knil d = fold_right proc knil (dq_to_list d)) /\
+  (forall A (p : A -> bool) (d : dq A), dq_any p d = existsb p (dq_to_list d)) /\
+  (forall A (p : A -> bool) (d : dq A), dq_every p d = forallb p (dq_to_list d)) /\
+  (forall A (p : A -> bool) (d : dq A), dq_find p d = find p (dq_to_list d)) /\
+  (forall A (p : A -> bool) (d : dq A), dq_find_right p d = find p (rev (dq_to_list d))) /\
+  (forall A (p : A -> bool) (d : dq A), dq_count p d = count_list p (dq_to_list d)) /\
+  (forall A (d : dq A), dq_for_each_order d = dq_to_list d) /\
+  (forall A (d : dq A), dq_for_each_right_order d = rev (dq_to_list d)) /\
+  (forall A (d : dq A), dq_wf d -> dq_drain (dq_length d) d = Some (dq_to_list d)).
+Proof. exact dq_observers_refine_lists. Qed.
+Print Assumptions ideque_observers_refine_lists.
+
+(** two-argument ideque= equals list= on the denoted lists for a SYMMETRIC elt= (134.scm:197 applies elt= with swapped arguments: see dq_equal_swaps_elt_eq_arguments) *)
+Theorem ideque_equal_refines_list_equal_partial :
+  forall A (eqb : A -> A -> bool) (d1 d2 : dq A),
+  (forall x y, eqb x y = eqb y x) -> dq_wf d1 -> dq_wf d2 ->
+  dq_equal eqb d1 d2 = list_eq eqb (dq_to_list d1) (dq_to_list d2).
+Proof. exact dq_equal_refines_list_eq_partial. Qed.
+Print Assumptions ideque_equal_refines_list_equal_partial.
+
+(** the change class 'a constructor skips check': filter ending in %make-dq breaks ideque-front *)
+Theorem ideque_filter_without_check_refuted :
+  exists (d : dq nat) (p : nat -> bool),
+    dq_wf d /\ dq_front (dq_filter_unchecked p d) <> hd_error (dq_to_list (dq_filter_unchecked p d)).
+Proof. exact dq_filter_unchecked_refuted. Qed.
+Print Assumptions ideque_filter_without_check_refuted.
+
+(** ---- SRFI 101 random-access lists inside the model (coq/C18/RaList.v mirrors lib/srfi/101.scm; proofs in RaListProofs.v) *)
+(** 101.scm ra:cons keeps the canonical skew-binary form (perfect trees of sizes 2^h-1, heights strictly increasing except possibly the first two) and conses *)
+Theorem ralist_cons_keeps_canonical_form :
+  forall A (x : A) ls, ra_canon ls ->
+  ra_canon (ra_cons x ls) /\ ra_flat (ra_cons x ls) = x :: ra_flat ls /\
+  ra_length (ra_cons x ls) = S (ra_length ls).
+Proof. exact ra_cons_canon. Qed.
+Print Assumptions ralist_cons_keeps_canonical_form.
+
+(** ra:car+cdr on a canonical non-empty list: head, canonical tail *)
+Theorem ralist_car_cdr_keep_canonical_form :
+  forall A (ls : ralist A), ra_canon ls -> ls <> [] ->
+  exists a d, ra_car_cdr ls = Some (a, d) /\ ra_canon d /\ ra_flat ls = a :: ra_flat d /\
+              ra_length ls = S (ra_length d).
+Proof. exact ra_car_cdr_canon. Qed.
+Print Assumptions ralist_car_cdr_keep_canonical_form.
+
+(** random-access-list->linear-access-list (the car/cdr walk) lists the preorder of the trees *)
+Theorem ralist_listing_by_car_cdr :
+  forall A (ls : ralist A), ra_canon ls ->
+  ra_to_list (ra_length ls) ls = Some (ra_flat ls).
+Proof. exact ra_to_list_flat. Qed.
+Print Assumptions ralist_listing_by_car_cdr.
+
+(** the canonical form is unique per length: lists of equal length have equal tree sizes (the fact the n-ary map relies on) *)
+Theorem ralist_canonical_form_unique_per_length :
+  forall A B (l1 : ralist A) (l2 : ralist B),
+  ra_canon l1 -> ra_canon l2 -> ra_length l1 = ra_length l2 -> ra_sizes l1 = ra_sizes l2.
+Proof. exact ra_canon_unique_shape. Qed.
+Print Assumptions ralist_canonical_form_unique_per_length.
+
+(** largest-skew-binary n is the largest 2^k-1 <= n *)
+Theorem ralist_largest_skew_binary_correct :
+  forall n, 1 <= n ->
+  exists k, 1 <= k /\ ra_largest_skew_binary n n = Some (2 ^ k - 1) /\ 2 ^ k - 1 <= n /\ n < 2 ^ (S k) - 1.
+Proof. exact ra_largest_skew_binary_spec. Qed.
+Print Assumptions ralist_largest_skew_binary_correct.
+
+(** ra:make-list (greedy decomposition by largest-skew-binary) ends, is canonical and holds k copies *)
+Theorem ralist_make_list_canonical :
+  forall A k (x : A),
+  exists ls, ra_make_list k x = Some ls /\ ra_canon ls /\ ra_flat ls = repeat x k /\ ra_length ls = k.
+Proof. exact ra_make_list_canon. Qed.
+Print Assumptions ralist_make_list_canonical.
+
+(** n-ary map (two lists) over canonical lists of equal length succeeds, is canonical and maps the zipped elements *)
+Theorem ralist_binary_map_on_equal_lengths :
+  forall A B C (f : A -> B -> C) l1 l2,
+  ra_canon l1 -> ra_canon l2 -> ra_length l1 = ra_length l2 ->
+  exists r, ra_map2 f l1 l2 = Some r /\ ra_canon r /\
+    ra_flat r = map (fun p => f (fst p) (snd p)) (combine (ra_flat l1) (ra_flat l2)) /\
+    ra_sizes r = ra_sizes l1.
+Proof. exact ra_map2_canon. Qed.
+Print Assumptions ralist_binary_map_on_equal_lengths.
+
+(** the same with three lists *)
+Theorem ralist_ternary_map_on_equal_lengths :
+  forall A B C D (f : A -> B -> C -> D) l1 l2 l3,
+  ra_canon l1 -> ra_canon l2 -> ra_canon l3 ->
+  ra_length l1 = ra_length l2 -> ra_length l1 = ra_length l3 ->
+  exists r, ra_map3 f l1 l2 l3 = Some r /\ ra_canon r /\
+    ra_flat r = map (fun p => f (fst (fst p)) (snd (fst p)) (snd p))
+                    (combine (combine (ra_flat l1) (ra_flat l2)) (ra_flat l3)) /\
+    ra_sizes r = ra_sizes l1.
+Proof. exact ra_map3_canon. Qed.
+Print Assumptions ralist_ternary_map_on_equal_lengths.
+
+(** for-each with two lists (repaired: tree-for-each/n) visits the zipped elements in order *)
+Theorem ralist_binary_for_each_in_order :
+  forall A B C (f : A -> B -> C) l1 l2,
+  ra_canon l1 -> ra_canon l2 -> ra_length l1 = ra_length l2 ->
+  ra_for_each2 f l1 l2 = Some (map (fun p => f (fst p) (snd p)) (combine (ra_flat l1) (ra_flat l2))).
+Proof. exact ra_for_each2_canon. Qed.
+Print Assumptions ralist_binary_for_each_in_order.
+
+(** ra:list-ref (tree-ref, tree-ref/a) = nth, None exactly out of range *)
+Theorem ralist_list_ref_refines_nth :
+  forall A (ls : ralist A) i, ra_canon ls ->
+  ra_list_ref ls i = nth_error (ra_flat ls) i.
+Proof. exact ra_list_ref_refines_nth. Qed.
+Print Assumptions ralist_list_ref_refines_nth.
+
+(** ra:list-ref/update (tree-ref/update) = nth and functional update, shape unchanged *)
+Theorem ralist_list_ref_update_refines :
+  forall A (ls : ralist A) i (f : A -> A),
+  ra_canon ls -> i < ra_length ls ->
+  exists v ls', ra_list_ref_update ls i f = Some (v, ls') /\ nth_error (ra_flat ls) i = Some v /\
+    ra_flat ls' = firstn i (ra_flat ls) ++ f v :: skipn (S i) (ra_flat ls) /\
+    ra_canon ls' /\ ra_sizes ls' = ra_sizes ls.
+Proof. exact ra_list_ref_update_refines. Qed.
+Print Assumptions ralist_list_ref_update_refines.
+
+(** ra:list / linear-access-list->random-access-list *)
+Theorem ralist_of_list_canonical :
+  forall A (xs : list A),
+  ra_canon (ra_of_list xs) /\ ra_flat (ra_of_list xs) = xs.
+Proof. exact ra_of_list_canon. Qed.
+Print Assumptions ralist_of_list_canonical.
+
+(** ra:append *)
+Theorem ralist_append_canonical :
+  forall A (l1 l2 : ralist A), ra_canon l2 ->
+  ra_canon (ra_append l1 l2) /\ ra_flat (ra_append l1 l2) = ra_flat l1 ++ ra_flat l2.
+Proof. exact ra_append_canon. Qed.
+Print Assumptions ralist_append_canonical.
+
+(** ra:reverse *)
+Theorem ralist_reverse_canonical :
+  forall A (ls : ralist A),
+  ra_canon (ra_reverse ls) /\ ra_flat (ra_reverse ls) = rev (ra_flat ls).
+Proof. exact ra_reverse_canon. Qed.
+Print Assumptions ralist_reverse_canonical.
+
+(** unary ra:map *)
+Theorem ralist_map_canonical :
+  forall A B (f : A -> B) (ls : ralist A), ra_canon ls ->
+  ra_canon (ra_map f ls) /\ ra_flat (ra_map f ls) = map f (ra_flat ls) /\
+  ra_sizes (ra_map f ls) = ra_sizes ls.
+Proof. exact ra_map_canon. Qed.
+Print Assumptions ralist_map_canonical.
+
+(** ra:list-tail *)
+Theorem ralist_list_tail_canonical :
+  forall A (ls : ralist A) j, ra_canon ls -> j <= ra_length ls ->
+  exists d, ra_list_tail ls j = Some d /\ ra_canon d /\ ra_flat d = skipn j (ra_flat ls).
+Proof. exact ra_list_tail_canon. Qed.
+Print Assumptions ralist_list_tail_canonical.
+
+(** equal? (structural equality of the records) on canonical lists = equality of the denoted lists *)
+Theorem ralist_equal_on_canonical_forms :
+  forall A (eqb : A -> A -> bool), (forall x y, eqb x y = true <-> x = y) ->
+  forall l1 l2, ra_canon l1 -> ra_canon l2 -> (ra_equal eqb l1 l2 = true <-> ra_flat l1 = ra_flat l2).
+Proof. exact ra_equal_canon. Qed.
+Print Assumptions ralist_equal_on_canonical_forms.
+
+(** the change class 'largest-skew-binary off by one at 2^k-1': make-list 3 with sizes (1 1 1) answers length/ref/listing correctly, is not canonical, and the binary map with (list 1 2 3) fails *)
+Theorem ralist_noncanonical_make_list_refuted :
+  ra_largest_skew_binary_ge 3 3 = Some 1 /\
+  ra_largest_skew_binary 3 3 = Some 3 /\
+  ~ ra_canon ra_bad3 /\
+  ra_flat ra_bad3 = [0; 0; 0] /\ ra_length ra_bad3 = 3 /\
+  (forall i, ra_list_ref ra_bad3 i = nth_error [0; 0; 0] i) /\
+  ra_to_list 3 ra_bad3 = Some [0; 0; 0] /\
+  ra_map2 Nat.add ra_bad3 (ra_of_list [1; 2; 3]) = None /\
+  (exists r, ra_make_list 3 0 = Some r /\ ra_sizes r = [3] /\
+             ra_map2 Nat.add r (ra_of_list [1; 2; 3]) = Some (ra_of_list [1; 2; 3])).
+Proof. exact ra_noncanonical_make_list_refuted. Qed.
+Print Assumptions ralist_noncanonical_make_list_refuted.
+
+(** (G) half, skew-succ, largest-skew-binary of lib/srfi/101.scm and C, check of lib/srfi/134.scm, regenerated from the Scheme
+    source on every run, are the model functions the theorems above are about *)
+Theorem seq_leaves_regenerated_equal_model :
+  (forall n, gen_half n = ra_half n) /\
+  (forall t, gen_skew_succ t = ra_skew_succ t) /\
+  (forall fuel n, gen_largest_skew_binary fuel n = ra_largest_skew_binary fuel n) /\
+  gen_C = dq_C /\
+  (forall A lf (f : list A) lr r, gen_check lf f lr r = dq_check lf f lr r).
+Proof. exact seq_leaves_tied. Qed.
+Print Assumptions seq_leaves_regenerated_equal_model.
